@@ -136,6 +136,15 @@ claim("C07", "other",
       "symbolic execution with enumerated cache-sharing patterns; polynomial identities decided by normal form + z3",
       "DESIGN.md section 1, C07")
 
+claim("C08", "other",
+      "Only the algebraic core is claimed: for fully symbolic state/operator tensors the matrix given to the eigensolver is the projection of H onto the tangent space - "
+      "get_ham_direct, get_ham_iterative (diagonal + hop_expr application), the (H-omega)^2 two-layer form, StackedMpo summation, restricted to the quantum-number mask, one- and "
+      "two-site, every centre, both directions; incremental environment update = freshly built environment.",
+      "NOT covered: variational upper bound as an executed statement, agreement with exact diagonalisation, Davidson/ARPACK/primme behaviour, sweep convergence (float "
+      "eigen-iterations). Normalisation/sector of results follow from C04/C06 lemmas.",
+      "symbolic execution of the effective-Hamiltonian builders; bilinear polynomial identities decided by normal form + z3",
+      "DESIGN.md section 1, C08")
+
 for pid in ["C%02d" % i for i in range(1, 21)]:
     if pid not in CHECKS:
         NA[pid] = "check not built yet (build in progress; see DESIGN.md)"
